@@ -687,6 +687,20 @@ func (cx *Ctx) sortedBeforeUse(f *ssa.Function, acc ssa.Value, hb *ssa.BasicBloc
 			case *ssa.MakeInterface, *ssa.ChangeType, *ssa.Convert:
 				collect(x.(ssa.Value))
 			case *ssa.DebugRef:
+			case *ssa.MakeClosure:
+				// the comparator handed to the sort call captures the slice variable
+				cmpOnly := x.Referrers() != nil && len(*x.Referrers()) > 0
+				if cmpOnly {
+					for _, cr := range *x.Referrers() {
+						ci, ok := cr.(ssa.CallInstruction)
+						if !ok || !isSortCall(ci) {
+							cmpOnly = false
+						}
+					}
+				}
+				if !cmpOnly {
+					uses = append(uses, use{r, v})
+				}
 			default:
 				uses = append(uses, use{r, v})
 			}
@@ -696,9 +710,7 @@ func (cx *Ctx) sortedBeforeUse(f *ssa.Function, acc ssa.Value, hb *ssa.BasicBloc
 	var sorts []ssa.Instruction
 	for _, u := range uses {
 		if ci, ok := u.ins.(ssa.CallInstruction); ok {
-			pkg, name := calleeName(ci.Common())
-			if (pkg == "sort" && (name == "Strings" || name == "Slice" || name == "SliceStable" || name == "Sort" || name == "Stable" || name == "Ints")) ||
-				(pkg == "slices" && strings.HasPrefix(name, "Sort")) {
+			if isSortCall(ci) {
 				sorts = append(sorts, u.ins)
 			}
 		}
@@ -737,6 +749,12 @@ func (cx *Ctx) sortedBeforeUse(f *ssa.Function, acc ssa.Value, hb *ssa.BasicBloc
 		}
 	}
 	return true
+}
+
+func isSortCall(ci ssa.CallInstruction) bool {
+	pkg, name := calleeName(ci.Common())
+	return (pkg == "sort" && (name == "Strings" || name == "Slice" || name == "SliceStable" || name == "Sort" || name == "Stable" || name == "Ints")) ||
+		(pkg == "slices" && strings.HasPrefix(name, "Sort"))
 }
 
 func instrIndex(ins ssa.Instruction) int {
